@@ -58,10 +58,27 @@ def run(P: Program, rep: Report):
             other = new_obj(it, P, "model", "String", key="s", value="sv", start_line=9, raw="sraw")
             lib = new_obj(it, P, "library", "Library")
             call(it, lib, "add", AList([e, other]))
+            def desc(l):
+                bl = it.iterate(it.get_attr(l, "blocks"))
+                if len(bl) != 2 or not isinstance(bl[0], AObj) or bl[0].cls.name != "Entry":
+                    return ("blocks", [getattr(b, "cls", b) for b in bl])
+                en = bl[0]
+                return ([(it.get_attr(f, "key"), it.get_attr(f, "value")) for f in it.iterate(it.get_attr(en, "fields"))],
+                        it.get_attr(en, "entry_type"), it.get_attr(en, "key"), it.get_attr(en, "raw"),
+                        (it.get_attr(bl[1], "key"), it.get_attr(bl[1], "value")))
             try:
                 mw = it.construct(cls, [], dict(kwargs))
                 out = call(it, mw, "transform", lib)
+                D1 = desc(out)
                 out2 = call(it, mw, "transform", out)
+                D2 = desc(out2)
+                # change the order afterwards and apply again: the second application must still do its work
+                out3 = None
+                bl3 = it.iterate(it.get_attr(out2, "blocks"))
+                if bl3 and isinstance(bl3[0], AObj) and bl3[0].cls.name == "Entry":
+                    cur = it.iterate(it.get_attr(bl3[0], "fields"))
+                    it.set_attr(bl3[0], "fields", AList(list(reversed(cur))))
+                    out3 = call(it, mw, "transform", out2)
             except Raised as r:
                 return ("raise", r)
             except (Unsupported, LoopBound) as u:
@@ -74,7 +91,7 @@ def run(P: Program, rep: Report):
                 return ([(it.get_attr(f, "key"), it.get_attr(f, "value")) for f in it.iterate(it.get_attr(en, "fields"))],
                         it.get_attr(en, "entry_type"), it.get_attr(en, "key"), it.get_attr(en, "raw"),
                         (it.get_attr(bl[1], "key"), it.get_attr(bl[1], "value")))
-            return ("return", desc(out), desc(out2))
+            return ("return", D1, D2, desc(out3) if out3 is not None else None)
         return [o for _, o in explore(one, 20)]
 
     def judge(rule, label, cls, kwargs, ref):
@@ -99,6 +116,11 @@ def run(P: Program, rep: Report):
                     bad.setdefault("frame", f"{cls.name} changes entry type/key/raw or another block: {d1[1:]}")
                 if d2 != d1:
                     bad.setdefault("idempotence", f"{cls.name} is not idempotent on {fields}: {d1[0]} then {d2[0]}")
+                d3 = res[3]
+                if d3 is not None and d1[0] != "blocks":
+                    want3 = ref(list(reversed(d1[0])))
+                    if d3[0] != want3:
+                        bad.setdefault("reapplied", f"{cls.name} applied again after the fields were reordered to {list(reversed(d1[0]))} gives {d3[0]}, contract {want3}")
         for k, msg in sorted(bad.items()):
             rep.fail(rule, f"{label}:{k}", cls.loc, msg)
         if not bad:
